@@ -1457,7 +1457,12 @@ class Interp:
         return None
 
     def s_Return(self, node, frame):
-        v = self.eval(node.value, frame) if node.value is not None else None
+        try:
+            v = self.eval(node.value, frame) if node.value is not None else None
+        except PyRaise:
+            # `return f(...)` whose expression raises (e.g. `return self.error(...)`): the statement was reached
+            self._reached(node, frame)
+            raise
         self._reached(node, frame)
         return ('return', v)
 
